@@ -51,10 +51,28 @@ def build(ir):
     if t == "list":
         return [build(x) for x in ir["v"]]
     if t == "obj":
-        cls = jt.CLASSES[ir["c"]]
+        cls = _module(ir).CLASSES[ir["c"]]
         kw = {k: build(v) for k, v in ir["f"].items()}
         return cls(**kw)
     raise ValueError(t)
+
+
+def _module(ir):
+    from ..models import json_tree as jt
+    from ..models import json_tree_b as jtb
+
+    return jtb if ir.get("m") == "b" else jt
+
+
+def _fields_of(obj):
+    """field names of a harness object, None for anything else"""
+    from ..models import json_tree as jt
+    from ..models import json_tree_b as jtb
+
+    for mod in (jt, jtb):
+        if type(obj).__name__ in mod.CLASSES and type(obj) is mod.CLASSES[type(obj).__name__]:
+            return mod.FIELDS[type(obj).__name__]
+    return None
 
 
 def same(a, b, path="$"):
@@ -77,8 +95,8 @@ def same(a, b, path="$"):
             if d:
                 return d
         return None
-    if type(a).__name__ in jt.CLASSES and type(a) is jt.CLASSES[type(a).__name__]:
-        for f in jt.FIELDS[type(a).__name__]:
+    if _fields_of(a) is not None:
+        for f in _fields_of(a):
             d = same(getattr(a, f), getattr(b, f), f"{path}.{f}")
             if d:
                 return d
@@ -106,8 +124,8 @@ def check_tags(value, js, path="$"):
     if not isinstance(js, dict) or js.get("__json_type__") != want:
         got = js.get("__json_type__") if isinstance(js, dict) else js
         return f"{path}: tag {got!r}, expected {want!r}"
-    if type(value).__name__ in jt.CLASSES:
-        for f in jt.FIELDS[type(value).__name__]:
+    if _fields_of(value) is not None:
+        for f in _fields_of(value):
             if f not in js:
                 return f"{path}: field {f} missing in serialised form"
             d = check_tags(getattr(value, f), js[f], f"{path}.{f}")
@@ -139,9 +157,11 @@ def _stats(ir, depth=0, in_list=False, acc=None):
     elif ir["t"] == "obj":
         from ..models import json_tree as jt
 
-        if in_list and jt.DEPTH[ir["c"]] >= 2:
+        if in_list and _module(ir).DEPTH[ir["c"]] >= 2:
             acc["deep_obj_in_list"] = True
         acc["kinds"].add("cls:" + ir["c"])
+        if ir.get("m") == "b":
+            acc["kinds"].add("same_class_name_in_second_module")
         for v in ir["f"].values():
             _stats(v, depth + 1, False, acc)
     return acc
@@ -154,7 +174,7 @@ class C18(Check):
         "Hypothesis-generated recursive values (None, bool, int incl. >2^64, float incl. +-0.0/inf/nan/"
         "subnormals, unicode strings incl. NUL and lone surrogates, UUID, registered Decimal/Fraction/"
         "complex/datetime, two registered pairs related by inheritance - date (registered first) / datetime and "
-        "Celsius / PreciseCelsius (subtype registered first) -, SubclassJSONSerializer instances of subclass depth 1..4, lists to depth 5 incl. "
+        "Celsius / PreciseCelsius (subtype registered first) -, SubclassJSONSerializer instances of subclass depth 1..4 (two of the class names also exist, with other fields, in a second module), lists to depth 5 incl. "
         "empty lists). Oracle: from_json(json.loads(json.dumps(to_json(v)))) structurally equal with "
         "identical types at every position, and every object's serialised dict carries module.qualname. "
         "Non-trivial: the value contains an instance of subclass depth >= 2 inside a list. Distinct = distinct IR."
@@ -205,11 +225,19 @@ class C18(Check):
 
             @st.composite
             def obj(draw):
+                from ..models import json_tree_b as jtb
+
                 c = draw(st.sampled_from(sorted(jt.CLASSES)))
+                mod = jt
+                if c in jtb.CLASSES and draw(st.sampled_from([0, 1])):
+                    mod = jtb  # a class with the same simple name from another module
                 f = {}
-                for name in jt.FIELDS[c]:
+                for name in mod.FIELDS[c]:
                     f[name] = draw(lists) if name == "z" else draw(children)
-                return dict(t="obj", c=c, f=f)
+                out = dict(t="obj", c=c, f=f)
+                if mod is jtb:
+                    out["m"] = "b"
+                return out
 
             return st.one_of(lists, obj(), lists)
 
